@@ -284,6 +284,29 @@ func (e *Engine) builtin(st *state, fr *frame, in ssa.CallInstruction, name stri
 		}
 		return one(st, nil)
 	case "min", "max":
+		// min(len(text), N) – the cut of a text to a width: the two cases are two paths, as if written with an if
+		if name == "min" && len(args) == 2 {
+			for side := 0; side < 2; side++ {
+				l, o := stripCT(args[side]), stripCT(args[1-side])
+				if l.Op != "len" || len(l.Args) != 1 || l.Args[0].Type == nil || !isStringOrBytes(l.Args[0].Type) {
+					continue
+				}
+				if !(o.Op == "param" || o.IsConst()) || o.Contains(func(x *Val) bool { return x.Op == "buflen" }) {
+					continue
+				}
+				c := mkBinop(token.GTR, args[side], args[1-side], types.Typ[types.Bool])
+				if b, known := e.evalCond(st, c); known {
+					if b {
+						return one(st, args[1-side])
+					}
+					return one(st, args[side])
+				}
+				st2 := st.clone()
+				e.assume(st, c, true, in.Pos(), fr.fn)
+				e.assume(st2, c, false, in.Pos(), fr.fn)
+				return []callRes{{st: st, val: args[1-side]}, {st: st2, val: args[side]}}
+			}
+		}
 		return one(st, &Val{Op: "call", Name: name, Args: args, Type: rt})
 	case "print", "println":
 		return one(st, nil)
@@ -805,6 +828,16 @@ func (e *Engine) model(st *state, fr *frame, in ssa.CallInstruction, fn *ssa.Fun
 						st.mem[data.Key()] = memEntry{Addr: data, V: &Val{Op: "decoded", ID: content.ID, Name: ord, Args: []*Val{content}, Type: p.Elem()}}
 						return one(st, tuple(mkLen(content), mkNil(errT))), true
 					}
+					// fewer bytes than the number needs (the view of a read that came back short): Decode refuses, *v is untouched
+					if sz > 0 && isShortVs(mkLen(content), mkInt(sz)) {
+						return one(st, tuple(mkInt(0), nonnil(fmt.Sprintf("binary.Decode#%d", e.id())))), true
+					}
+					if l := stripCT(mkLen(content)); sz == -1 && l.Op == "short" && len(l.Args) == 1 {
+						// generic body: fewer bytes than the binary.Size of the same type that was asked for
+						if want := stripCT(l.Args[0]); want.Op == "call" && want.Name == "encoding/binary.Size" {
+							return one(st, tuple(mkInt(0), nonnil(fmt.Sprintf("binary.Decode#%d", e.id())))), true
+						}
+					}
 				}
 			}
 		}
@@ -912,6 +945,32 @@ func (e *Engine) model(st *state, fr *frame, in ssa.CallInstruction, fn *ssa.Fun
 		}, true
 	case "(*bytes.Buffer).Write", "(*bytes.Buffer).WriteString":
 		src := e.contentOf(st, args[1])
+		// x[:len(x)] is x
+		if sl := stripCT(src); sl != nil && sl.Op == "slice" && len(sl.Args) >= 3 && sl.Args[2] != nil && (len(sl.Args) < 4 || sl.Args[3] == nil) {
+			lo0 := sl.Args[1] == nil
+			if !lo0 {
+				if k, isC := sl.Args[1].Int64(); isC && k == 0 {
+					lo0 = true
+				}
+			}
+			if inner := e.contentOf(st, sl.Args[0]); lo0 && inner != nil && !affOf(mkLen(inner)).Top && affOf(sl.Args[2]).Equal(affOf(mkLen(inner))) {
+				src = inner
+			}
+		}
+		// one byte appended count times onto an empty slice: count copies of that byte
+		if col := stripCT(src); col != nil && col.Op == "collect" && len(col.Args) == 3 {
+			init, el := stripCT(col.Args[0]), stripCT(col.Args[1])
+			empty := init.IsNilConst() || init.Op == "availbuf" || (init.Op == "makeslice" && isZero(init.Args[0]))
+			if empty && el.Op == "arraylit" && len(el.Args) == 1 && !el.Args[0].Contains(func(x *Val) bool { return x.Op == "loopvar" || x.Op == "wire" || x.Op == "elem" }) {
+				if bt, isB := typeUnder(el.Args[0].Type).(*types.Basic); isB && bt.Kind() == types.Uint8 {
+					src = &Val{Op: "call", Name: "bytes.Repeat", Args: []*Val{el, col.Args[2]}, Type: col.Type}
+				}
+			}
+		}
+		// nothing to write
+		if n, isC := affOf(mkLen(src)).IsConst(); isC && n == 0 {
+			return one(st, tuple(mkInt(0), mkNil(errT))), true
+		}
 		// numbers staged by a loop: AppendUintN onto a staged prefix, once per iteration
 		if sr := stripCT(src); sr != nil && sr.Op == "stagedrep" && len(sr.Args) == 3 {
 			pre := stagedInts(sr.Args[0])
@@ -1078,6 +1137,16 @@ func (e *Engine) model(st *state, fr *frame, in ssa.CallInstruction, fn *ssa.Fun
 		return res, true
 	case "bytes.NewBuffer", "bytes.NewBufferString", "bytes.NewReader":
 		return one(st, &Val{Op: "call", Name: name, Args: []*Val{args[0]}, Type: fn.Signature.Results().At(0).Type()}), true
+	case "errors.Is", "errors.As":
+		// no error at all matches nothing; an error is itself
+		if len(args) == 2 {
+			if nilness(args[0]) == -1 {
+				return one(st, mkBool(false)), true
+			}
+			if name == "errors.Is" && stripIface(args[0]).Key() == stripIface(args[1]).Key() && nilness(args[0]) == +1 {
+				return one(st, mkBool(true)), true
+			}
+		}
 	case "fmt.Errorf", "errors.New":
 		return one(st, &Val{Op: "call", Name: name, Args: args, Type: errT}), true
 	}
